@@ -370,6 +370,13 @@ func oracleSegs(c *Case, segs []*SegObs) *Failure {
 		if j > 0 {
 			prev = segs[j-1].Info
 		}
+		// (d) a store that refuses the write: no checkpoint exists, so no interrupt error may be returned
+		if s.SetFailed {
+			if s.Class == "interrupt" || s.Class == "done" {
+				return &Failure{fmt.Sprintf("call %d: the store refused the checkpoint and the call ended with %s", j, s.Class), "store-failure-ignored"}
+			}
+			continue
+		}
 		// (d) checkpoint written exactly when an interrupt error is returned and an id was given
 		wantSets := 0
 		if s.WithID && s.Class == "interrupt" {
